@@ -6,6 +6,8 @@
 From Coq Require Import List ZArith QArith Qreals Bool Arith Reals Permutation.
 From EV Require Import JointCounts Info JointCountsProofs InfoProofs JointShape JointPooled InfoEndToEnd.
 From EV Require Import InfoBase InfoGen InfoGenProofs.
+From EV Require Import InfoPyBase MutualInfoGen EntropyGen InfoPyGenCounts InfoPyGenMI EntropyGenProofs InfoPyGenTop.
+From EV Require Import InfoPyGenWeighted EntropyGen2dProofs InfoPyGenLaws.
 Import ListNotations.
 
 (* ---- "Joint-count tables hold, for every feature pair and state pair, the exact number of frames
@@ -497,3 +499,265 @@ Example c18_example_generated :
   /\ gen_matrix_bincount2d []%Z [] 2 2 = None.
 Proof. vm_compute. repeat split; reflexivity. Qed.
 Print Assumptions c18_example_generated.
+
+(* ============================ round 3: tie to the source text of the Python layer ===================
+   Gen/MutualInfoGen.v and Gen/EntropyGen.v are regenerated on every run by translator/tr_infopy.py from
+   enspara/info_theory/mutual_info.py (joint_counts, mutual_information, _validate_feature_states_array,
+   channel_capacity_normalization, mi_matrix) and entropy.py (shannon_entropy, kl_divergence): which axes
+   are summed, the operands / broadcast / `where=` mask / `out=` initial value of every masked ufunc, the
+   accumulation loop and its skipped cells, dtype harmonisation and default state counts, the np.fmin of
+   the np.meshgrid grids, the pooling loop, the nan repair of P * log(P / Q).  The theorems below say
+   that this text is the hand-written model the theorems above are about, for all inputs; they stop
+   compiling when the source changes meaning. *)
+
+(* ---- joint_counts: 1-D expansion, default state counts int(X.max())+1 (a Python int, no wrap-around
+        in the array's type), the Y=None branch, np.promote_types with the int64 escape for
+        (u)int64-with-signed and astype on both arrays (value preserving), the kernel call with equal
+        element types: exactly the model's joint_counts on the values *)
+Theorem c18_generated_joint_counts_is_model : forall X Y n_x n_y,
+  in_range X -> (forall Y', Y = Some Y' -> in_range Y') ->
+  gen_joint_counts X Y n_x n_y = joint_counts (vals X) (option_map vals Y) n_x n_y.
+Proof. exact gen_joint_counts_is_model. Qed.
+Print Assumptions c18_generated_joint_counts_is_model.
+
+(* the common element type holds every value of both arrays (values that fit int64) *)
+Theorem c18_generated_common_type_holds_both : forall a b, kind_of a <> KF -> kind_of b <> KF ->
+  let c := promote_types a b in
+  let c' := if kind_eqb (kind_of c) KF then I64 else c in
+  kind_of c' <> KF /\ (dmin c' <= dmin a /\ dmin c' <= dmin b)%Z /\
+  (Z.min (dmax a) (2^63 - 1) <= dmax c' /\ Z.min (dmax b) (2^63 - 1) <= dmax c')%Z.
+Proof. exact promote_holds. Qed.
+Print Assumptions c18_generated_common_type_holds_both.
+
+(* ---- mi_matrix: the pooling loop (first table kept, later ones shape-tested and added) is the
+        model's pooled_counts with state counts np.max(n_x), np.max(n_y) *)
+Theorem c18_generated_pooling_is_model : forall Xs Ys n_x n_y nx ny,
+  np_max_s n_x = Some nx -> np_max_s n_y = Some ny ->
+  Forall in_range Xs -> Forall in_range Ys ->
+  gen_mi_matrix_counts Xs Ys n_x n_y = pooled_counts (combine (map vals Xs) (map vals Ys)) nx ny.
+Proof. exact gen_mi_matrix_counts_is_model. Qed.
+Print Assumptions c18_generated_pooling_is_model.
+
+(* ---- _validate_feature_states_array / channel_capacity_normalization: the rejections and the
+        divisor grid np.fmin of the two np.meshgrid(n_x, n_y, indexing=ij) grids, exactly (Z) *)
+Theorem c18_generated_states_array_is_model : forall n dim,
+  gen_validate_feature_states_array n dim = states_array n dim.
+Proof. exact gen_validate_feature_states_array_is_model. Qed.
+Print Assumptions c18_generated_states_array_is_model.
+
+Theorem c18_generated_cc_grid_is_model : forall rows cols n_x n_y,
+  gen_cc_min_num_states rows cols n_x n_y = cc_grid rows cols n_x n_y.
+Proof. exact gen_cc_min_num_states_is_model. Qed.
+Print Assumptions c18_generated_cc_grid_is_model.
+
+(* ======================= generated text = model, over the reals ================================= *)
+
+(* ---- mutual_information: marginals by summing the last / second-to-last axis, guarded divisions
+        (mask n_obs > 0, masked cells 0), the 4-deep loop adding P_xy log(P_xy / (P_x P_y)) into
+        mi[i, j] for the cells where none of the three probabilities is 0: on every regular 4-D table
+        the result is the model's mi_of_counts of every feature pair *)
+Theorem c18_generated_mutual_information_is_model : forall jc,
+  regular4 jc -> gen_mutual_information jc = map (map mi_of_counts) jc.
+Proof. exact gen_mutual_information_is_model. Qed.
+Print Assumptions c18_generated_mutual_information_is_model.
+
+Theorem c18_generated_mutual_information_entry : forall jc a b,
+  regular4 jc -> (a < length jc)%nat -> (b < dim1 jc)%nat ->
+  nth b (nth a (gen_mutual_information jc) []) 0%R = mutual_information jc a b.
+Proof. exact gen_mutual_information_entry. Qed.
+Print Assumptions c18_generated_mutual_information_entry.
+
+(* ... and the tables joint_counts returns are regular, so the law theorems above apply to
+        mutual_information(joint_counts(X, Y, n_x, n_y)) as the source text computes it *)
+Theorem c18_generated_mi_of_joint_counts : forall X Y n_x n_y jc,
+  in_range X -> (forall Y', Y = Some Y' -> in_range Y') ->
+  gen_joint_counts X Y n_x n_y = Some jc ->
+  gen_mutual_information jc = map (map mi_of_counts) jc.
+Proof. exact gen_mutual_information_of_joint_counts. Qed.
+Print Assumptions c18_generated_mi_of_joint_counts.
+
+(* ---- channel_capacity_normalization: accepted exactly when the model's grid exists; entry (i, j)
+        is mi[i, j] / ln(grid[i, j]) *)
+Theorem c18_generated_cc_normalization_is_model : forall mi n_x n_y,
+  regular2 mi ->
+  match gen_channel_capacity_normalization mi n_x n_y, cc_grid (length mi) (dim1 mi) n_x n_y with
+  | Some out, Some G =>
+      length out = length mi /\
+      forall i j, (i < length mi)%nat -> (j < dim1 mi)%nat ->
+        length (nth i out []) = dim1 mi /\
+        nth j (nth i out []) 0%R = cc_norm (fun i j => nth j (nth i mi []) 0%R) G i j
+  | None, None => True
+  | _, _ => False
+  end.
+Proof. exact gen_channel_capacity_normalization_is_model. Qed.
+Print Assumptions c18_generated_cc_normalization_is_model.
+
+(* ---- mi_matrix end to end: pooled counts -> mutual_information -> optional normalisation *)
+Theorem c18_generated_mi_matrix_is_model : forall Xs Ys n_x n_y nx ny normalize,
+  np_max_s n_x = Some nx -> np_max_s n_y = Some ny ->
+  Forall in_range Xs -> Forall in_range Ys ->
+  gen_mi_matrix Xs Ys n_x n_y normalize =
+  match pooled_counts (combine (map vals Xs) (map vals Ys)) nx ny with
+  | None => None
+  | Some J =>
+      let mi := map (map mi_of_counts) J in
+      if normalize then gen_channel_capacity_normalization mi n_x n_y else Some mi
+  end.
+Proof. exact gen_mi_matrix_is_model. Qed.
+Print Assumptions c18_generated_mi_matrix_is_model.
+
+(* ---- shannon_entropy: log masked by p > 0 into zeros (0 log 0 = 0), minus the sum of p log p;
+        optional normalisation by the sum *)
+Theorem c18_generated_shannon_entropy_is_model : forall p, gen_shannon_entropy p false = entropy_R p.
+Proof. exact gen_shannon_entropy_is_model. Qed.
+Print Assumptions c18_generated_shannon_entropy_is_model.
+
+Theorem c18_generated_shannon_entropy_normalized : forall p,
+  gen_shannon_entropy p true = entropy_R (map (fun x => (x / Rsum p)%R) p).
+Proof. exact gen_shannon_entropy_normalized. Qed.
+Print Assumptions c18_generated_shannon_entropy_normalized.
+
+(* ---- kl_divergence (1-D arguments), computed as the source does in IEEE arithmetic with nan and
+        inf as values: rejected exactly on a length mismatch or a negative entry; the nan repair is the
+        0 log 0 = 0 convention; +inf exactly in the model's infinite case; otherwise kl_R *)
+Theorem c18_generated_kl_rejects : forall P Qd base,
+  gen_kl_divergence P Qd base = None <->
+  (length P <> length Qd \/ exists x, In x (P ++ Qd) /\ (x < 0)%R).
+Proof. exact gen_kl_divergence_rejects. Qed.
+Print Assumptions c18_generated_kl_rejects.
+
+Theorem c18_generated_kl_cell : forall p q, (0 <= p)%R -> (0 <= q)%R ->
+  (let c := x_mul (XFin p) (x_log (x_div (XFin p) (XFin q))) in if x_isnan c then XFin 0 else c) =
+  if Req_EM_T p 0 then XFin 0 else if Req_EM_T q 0 then XPInf else XFin (p * ln (p / q)).
+Proof. exact kl_cell_value. Qed.
+Print Assumptions c18_generated_kl_cell.
+
+Theorem c18_generated_kl_finite_is_model : forall P Qd base d,
+  (1 < base)%R -> gen_kl_divergence P Qd base = Some d -> ~ kl_infinite P Qd ->
+  d = XFin (kl_R P Qd base).
+Proof. exact gen_kl_divergence_finite. Qed.
+Print Assumptions c18_generated_kl_finite_is_model.
+
+Theorem c18_generated_kl_infinite_is_model : forall P Qd base d,
+  (1 < base)%R -> gen_kl_divergence P Qd base = Some d -> kl_infinite P Qd -> d = XPInf.
+Proof. exact gen_kl_divergence_infinite. Qed.
+Print Assumptions c18_generated_kl_infinite_is_model.
+
+(* the three outcomes agree with the exact rational side the correspondence compares *)
+Theorem c18_generated_kl_agrees_with_cells : forall (P Qd : list Q) base, (1 < base)%R ->
+  match kl_cells P Qd, gen_kl_divergence (map Q2R P) (map Q2R Qd) base with
+  | Err, None => True | Inf, Some XPInf => True | Fin _, Some (XFin _) => True | _, _ => False end.
+Proof. exact gen_kl_divergence_cells. Qed.
+Print Assumptions c18_generated_kl_agrees_with_cells.
+
+(* ---- kl_divergence on 2-D arguments (axis_sum = 1): one divergence per row, each the 1-D value *)
+Theorem c18_generated_kl_2d_rows : forall P Qd base ds,
+  regularR P -> regularR Qd -> gen_kl_divergence_2d P Qd base = Some ds ->
+  length P = length Qd /\ length ds = length P /\
+  Forall2 (fun d pq => gen_kl_divergence (fst pq) (snd pq) base = Some d) ds (combine P Qd).
+Proof. exact gen_kl_divergence_2d_rows. Qed.
+Print Assumptions c18_generated_kl_2d_rows.
+
+Theorem c18_generated_kl_2d_rejects : forall P Qd base,
+  gen_kl_divergence_2d P Qd base = None <->
+  (length P <> length Qd \/ dim1 P <> dim1 Qd \/
+   exists x, In x (concat P ++ concat Qd) /\ (x < 0)%R).
+Proof. exact gen_kl_divergence_2d_rejects. Qed.
+Print Assumptions c18_generated_kl_2d_rejects.
+
+(* ---- weighted_mi: weighted bincounts, one-hot layers, matmul((onehot_u * w[:, None]).T, onehot_v),
+        meshgrid products of the marginals, divide where the product is non-zero into zeros, log where
+        the ratio is non-zero in place, multiply, sum over the state pairs, clip at 0: entry (a, b) is
+        the model's weighted_mi_R (hence, for weights 1/T, mutual_information of the joint counts:
+        c18_weighted_uniform_equals_plain) *)
+Theorem c18_generated_weighted_mi_core_is_model : forall X w n a b,
+  rect_features X -> length w = length X -> (a < dim1 X)%nat -> (b < dim1 X)%nat ->
+  Rmax 0 (nth b (nth a (gen_weighted_mi_core X w n) []) 0%R) = weighted_mi_R X w n a b.
+Proof. exact gen_weighted_mi_core_is_model. Qed.
+Print Assumptions c18_generated_weighted_mi_core_is_model.
+
+Theorem c18_generated_weighted_mi_is_model : forall X w nfs n out a b,
+  rect_features X -> zmax_list nfs = Some n -> Qeq_bool (qsum w) 1 = true ->
+  gen_weighted_mi X w (Some nfs) false = Some out ->
+  (a < dim1 X)%nat -> (b < dim1 X)%nat ->
+  nth b (nth a out []) 0%R = weighted_mi_R X w n a b.
+Proof. exact gen_weighted_mi_is_model. Qed.
+Print Assumptions c18_generated_weighted_mi_is_model.
+
+(* the default state counts np.full(F, features.max() + 1, dtype='int16') are max+1 while that fits
+   16 bits; negative weights, zero total weight and a wrong number of weights are rejected *)
+Theorem c18_generated_weighted_mi_defaults : forall X w m normalize,
+  zmax_list (concat X) = Some m -> (-32768 <= m + 1 <= 32767)%Z ->
+  gen_weighted_mi X w None normalize = gen_weighted_mi X w (Some (np_full (dim1 X) (m + 1)%Z)) normalize.
+Proof. exact gen_weighted_mi_default_counts. Qed.
+Print Assumptions c18_generated_weighted_mi_defaults.
+
+Theorem c18_generated_weighted_mi_accepts : forall X w nfs normalize out,
+  gen_weighted_mi X w nfs normalize = Some out ->
+  Forall (fun x => 0 <= x)%Q w /\ ~ (qsum w == 0)%Q /\ length w = length X.
+Proof. exact gen_weighted_mi_accepts. Qed.
+Print Assumptions c18_generated_weighted_mi_accepts.
+
+(* ======================= the laws, stated on the regenerated text itself ==========================
+   gen_mi_entry jc a b is entry (a, b) of what the regenerated mutual_information returns; the tables
+   come from the regenerated joint_counts, the entropies from the regenerated shannon_entropy *)
+
+(* ---- "non-negative ... no larger than the smaller marginal entropy" *)
+Theorem c18_generated_mi_bounds_on_data : forall X Y na nb jc a b,
+  in_range X -> in_range Y ->
+  gen_joint_counts X (Some Y) (Some na) (Some nb) = Some jc ->
+  (a < width (vals X))%nat -> (b < width (vals Y))%nat ->
+  (0 <= gen_mi_entry jc a b)%R /\
+  (gen_mi_entry jc a b <= gen_shannon_entropy (empirical_dist (vals X) a na) false)%R /\
+  (gen_mi_entry jc a b <= gen_shannon_entropy (empirical_dist (vals Y) b nb) false)%R.
+Proof. exact gen_mi_bounds_on_data. Qed.
+Print Assumptions c18_generated_mi_bounds_on_data.
+
+(* ---- "symmetric for a data set against itself, equal to the Shannon entropy on the diagonal" *)
+Theorem c18_generated_mi_self_symmetric : forall X nx ny jc a b,
+  in_range X -> gen_joint_counts X None nx ny = Some jc ->
+  (a < width (vals X))%nat -> (b < width (vals X))%nat ->
+  gen_mi_entry jc b a = gen_mi_entry jc a b.
+Proof. exact gen_mi_self_symmetric. Qed.
+Print Assumptions c18_generated_mi_self_symmetric.
+
+Theorem c18_generated_mi_self_diagonal_is_entropy : forall X nx ny n jc a,
+  in_range X -> gen_joint_counts X None nx ny = Some jc -> default_n nx (vals X) = Some n ->
+  (a < width (vals X))%nat ->
+  gen_mi_entry jc a a = gen_shannon_entropy (empirical_dist (vals X) a n) false.
+Proof. exact gen_mi_self_diagonal_is_entropy. Qed.
+Print Assumptions c18_generated_mi_self_diagonal_is_entropy.
+
+(* ---- "relative entropy is non-negative and zero exactly for equal distributions": the IEEE value
+        kl_divergence returns is +inf (distributions differ) or a finite r >= 0 with r = 0 <-> P = Q *)
+Theorem c18_generated_kl_nonneg_zero_iff_equal : forall P Qd base d,
+  length P = length Qd -> distribution P -> distribution Qd -> (1 < base)%R ->
+  gen_kl_divergence P Qd base = Some d ->
+  (d = XPInf /\ P <> Qd) \/ (exists r, d = XFin r /\ (0 <= r)%R /\ (r = 0%R <-> P = Qd)).
+Proof. exact gen_kl_nonneg_zero_iff_equal. Qed.
+Print Assumptions c18_generated_kl_nonneg_zero_iff_equal.
+
+(* ---- "equal to the weighted estimator under uniform weights" *)
+Theorem c18_generated_weighted_uniform_equals_plain : forall X nfs n ny jc out a b,
+  in_range X -> rect_features (vals X) -> (0 < length (vals X))%nat ->
+  zmax_list nfs = Some n ->
+  gen_weighted_mi (vals X) (repeat (1 # Pos.of_nat (length (vals X))) (length (vals X))) (Some nfs) false = Some out ->
+  gen_joint_counts X None (Some n) ny = Some jc ->
+  (a < dim1 (vals X))%nat -> (b < dim1 (vals X))%nat ->
+  nth b (nth a out []) 0%R = gen_mi_entry jc a b.
+Proof. exact gen_weighted_uniform_equals_plain. Qed.
+Print Assumptions c18_generated_weighted_uniform_equals_plain.
+
+(* ---- Non-vacuity: mixed element types (uint8 ids up to 255 against int8), a 1-D second side,
+        default state counts; a rejected state-count vector; the grid *)
+Example c18_example_generated_python :
+  gen_joint_counts {| dt := U8; is1d := false; vals := [[255]; [0]; [255]]%Z |}
+                   (Some {| dt := I8; is1d := true; vals := [[1]; [0]; [1]]%Z |}) None None
+    = joint_counts [[255]; [0]; [255]]%Z (Some [[1]; [0]; [1]]%Z) None None
+  /\ in_range {| dt := U8; is1d := false; vals := [[255]; [0]; [255]]%Z |}
+  /\ promote_types U8 I8 = I16 /\ promote_types U64 I8 = F64
+  /\ gen_cc_min_num_states 2 3 (inr [2; 8]%Z) (inr [4; 3; 5]%Z) = Some [[2; 2; 2]; [4; 3; 5]]%Z
+  /\ gen_cc_min_num_states 2 3 (inl 1%Z) (inr [4; 3; 5]%Z) = None
+  /\ regular4 [[[[1; 0]; [0; 1]]; [[2; 0]; [0; 0]]]]%nat.
+Proof. exact example_generated_python. Qed.
+Print Assumptions c18_example_generated_python.
